@@ -29,7 +29,7 @@ from __future__ import annotations
 import ast
 from pathlib import Path
 
-from translate.sites import FILES, TranslateError
+from translate.sites import FILES, TranslateError, all_files
 
 MUTABLE_CALLS = {"dict", "list", "set", "defaultdict", "OrderedDict", "Counter", "deque", "WeakKeyDictionary",
                  "WeakValueDictionary", "WeakSet", "bytearray"}
@@ -142,10 +142,10 @@ def inventory(repo: str):
     base = Path(repo) / "pyanalyze"
     trees = []
     for f in FILES:
-        p = base / f
-        if not p.exists():
+        if not (base / f).exists():
             raise TranslateError(f"anchored file missing: {f}")
-        trees.append((f, ast.parse(p.read_text())))
+    for f in all_files(repo):   # phase 4: every non-test module, the seven anchored files first
+        trees.append((f, ast.parse((base / f).read_text())))
     cfields = class_mutable_fields(trees)
     mutated = _mutated_names(trees)
     items = []
